@@ -12,7 +12,7 @@ oracle `s.fails`, the hypothesis is only that *this* call returned success.
 * `regenerate_ok_saved`: `RegenerateID`.
 * `hlogin_ok_saved`: `LogIn`.
 -/
-namespace Sx
+namespace Sx.Loc
 
 /-! ### `cache.Set` (restated from `Basics`) -/
 
@@ -405,4 +405,4 @@ example : Safe (.gen exSt.nextId) exSt ∧ lookup (ID.gen exSt.nextId) exSt.stor
 
 end examples
 
-end Sx
+end Sx.Loc
